@@ -330,6 +330,97 @@ func runC15(c *Ctx) {
 				}
 			}
 		})
+		// fourth form: the whole construction in a NEW helper `newRespOpt(clientOpt)`: nil for a nil client OPT, else a
+		// fresh newOpt() with DO set (library setter without arguments, or the inline OR) under clientOpt.Do()
+		if !respOK || !doOK {
+			eachInstr(nc, func(in ssa.Instruction) {
+				st, ok := in.(*ssa.Store)
+				if !ok {
+					return
+				}
+				if k, _ := fieldKey(st.Addr); k != Q+"respOpt" {
+					return
+				}
+				cl, ok := st.Val.(*ssa.Call)
+				if !ok || len(cl.Call.Args) != 1 {
+					return
+				}
+				h := cl.Call.StaticCallee()
+				if !isNewHelper(h) || len(h.Params) != 1 || newOpt == nil {
+					return
+				}
+				if k, _ := loadedField(cl.Call.Args[0]); k != Q+"clientOpt" {
+					return
+				}
+				p0 := ssa.Value(h.Params[0])
+				retOK, nRet := true, 0
+				var fresh *ssa.Call
+				for _, r := range returnsOf(h) {
+					rv := returnedValues(r)
+					if len(rv) != 1 {
+						retOK = false
+						continue
+					}
+					nRet++
+					nilGuard, nonNilGuard := false, false
+					for _, g := range guardsOfInstr(r) {
+						if cm, ok := g.asCmp(); ok && cm.X == p0 && isNilConst(cm.Y) {
+							if cm.Op == token.EQL {
+								nilGuard = true
+							} else if cm.Op == token.NEQ {
+								nonNilGuard = true
+							}
+						}
+					}
+					if isNilConst(rv[0]) {
+						if !nilGuard {
+							retOK = false
+						}
+						continue
+					}
+					c2, isCall := rv[0].(*ssa.Call)
+					if !isCall || staticCallee(c2) != newOpt || !nonNilGuard {
+						retOK = false
+						continue
+					}
+					fresh = c2
+				}
+				if !retOK || nRet < 2 || fresh == nil {
+					return
+				}
+				respOK = true
+				eachInstr(h, func(y ssa.Instruction) {
+					underDo := false
+					for _, g := range guardsOfInstr(y) {
+						v, truth := g.asBool()
+						if dc, ok := v.(*ssa.Call); ok && truth && callName(dc) == "(*github.com/miekg/dns.OPT).Do" && dc.Call.Args[0] == p0 {
+							underDo = true
+						}
+					}
+					if !underDo {
+						return
+					}
+					if sc, ok := y.(*ssa.Call); ok && callName(sc) == "(*github.com/miekg/dns.OPT).SetDo" && len(sc.Call.Args) == 2 && sc.Call.Args[0] == ssa.Value(fresh) && isNilConst(sc.Call.Args[1]) {
+						doOK = true
+						librarySetDo[sc] = true
+					}
+					if s2, ok := y.(*ssa.Store); ok {
+						if k, _ := fieldKey(s2.Addr); k == "github.com/miekg/dns.RR_Header.Ttl" {
+							if bo, ok := s2.Val.(*ssa.BinOp); ok && bo.Op == token.OR {
+								if n, ok := constInt(bo.Y); ok && n == 1<<15 {
+									if fa, ok := s2.Addr.(*ssa.FieldAddr); ok {
+										if hd, ok := fa.X.(*ssa.FieldAddr); ok && hd.X == ssa.Value(fresh) {
+											doOK = true
+											inlinedDoStore[s2] = true
+										}
+									}
+								}
+							}
+						}
+					}
+				})
+			})
+		}
 		// third form: the library's setter, `respOpt.SetDo()` without arguments (sets the bit), under clientOpt.Do()
 		if !doOK {
 			eachInstr(nc, func(in ssa.Instruction) {
@@ -600,6 +691,12 @@ func runC15(c *Ctx) {
 						}
 					}
 				}
+				// a predicate `isOpt(r)` (local closure or helper) that is exactly "r's type is OPT", false here
+				if v, truth := gd.asBool(); v != nil && !truth {
+					if pc, ok := v.(*ssa.Call); ok && isOptPredicate(pc) {
+						guarded = true
+					}
+				}
 			}
 			if !guarded {
 				good = false
@@ -730,4 +827,38 @@ func runC15(c *Ctx) {
 		}
 	}
 
+}
+
+// isOptPredicate: pc calls a function or closure of the analysed module that takes a record and returns exactly
+// `r.Header().Rrtype == dns.TypeOPT` (or a type assertion to *dns.OPT).
+func isOptPredicate(pc *ssa.Call) bool {
+	var h *ssa.Function
+	if sc := pc.Call.StaticCallee(); sc != nil {
+		h = sc
+	} else if mc, ok := pc.Call.Value.(*ssa.MakeClosure); ok {
+		h, _ = mc.Fn.(*ssa.Function)
+	}
+	if h == nil || len(h.Blocks) == 0 || !inMosdns(h) || len(pc.Call.Args) != 1 {
+		return false
+	}
+	rets := returnsOf(h)
+	if len(rets) != 1 || len(rets[0].Results) != 1 {
+		return false
+	}
+	switch x := rets[0].Results[0].(type) {
+	case *ssa.BinOp:
+		if x.Op != token.EQL {
+			return false
+		}
+		if k, _ := loadedField(x.X); k != "github.com/miekg/dns.RR_Header.Rrtype" {
+			return false
+		}
+		n, ok := constInt(x.Y)
+		return ok && n == 41
+	case *ssa.Extract:
+		if ta, ok := x.Tuple.(*ssa.TypeAssert); ok && x.Index == 1 {
+			return strings.HasSuffix(ta.AssertedType.String(), "dns.OPT")
+		}
+	}
+	return false
 }
